@@ -295,7 +295,8 @@ def run_query(b, q, mem_gb):
                 continue
             if first == 'sat':
                 r.status = 'timeout'; r.solver = sv
-                r.smt_sat = sv
+                if not re.search(r'\(error', o):
+                    r.smt_sat = sv
                 r.detail = '%s reports a counterexample; re-solving with a SAT back end for the trace' % sv
                 continue
             # unsat: all obligations hold; now the witness (reachability) with a SAT back end
@@ -521,7 +522,14 @@ def do_replay(path):
 def check(prop, tier, families=None, only_entry=None, verbose=False):
     t0 = time.time()
     seed = int(os.environ.get('VERIF_SEED', '0') or 0)
-    tag = prop + '_' + tier + ('' if OUT == ROOT else '_%d' % os.getpid())
+    tag = prop + '_' + tier + '_%d' % os.getpid()   # per-process build area: concurrent runs of the same check do not disturb each other
+    try:
+        for d_ in os.listdir(BUILD):
+            m_ = re.fullmatch(r'.*_(\d+)', d_)
+            if m_ and not os.path.exists('/proc/%s' % m_.group(1)):
+                shutil.rmtree(os.path.join(BUILD, d_), ignore_errors=True)   # left behind by a killed run
+    except OSError:
+        pass
     shutil.rmtree(os.path.join(BUILD, tag), ignore_errors=True)
     shutil.rmtree(os.path.join(OUT, 'replay', prop), ignore_errors=True)
     fams = []
